@@ -19,6 +19,7 @@ import (
 	"github.com/cedar-policy/cedar-go/verif/c12"
 	"github.com/cedar-policy/cedar-go/verif/c13"
 	"github.com/cedar-policy/cedar-go/verif/c18"
+	"github.com/cedar-policy/cedar-go/verif/c10"
 	"github.com/cedar-policy/cedar-go/verif/c20"
 	"github.com/cedar-policy/cedar-go/verif/core"
 )
@@ -37,6 +38,7 @@ var registry = map[string]func() *core.Check{
 	"C12": c12.Check,
 	"C13": c13.Check,
 	"C18": c18.Check,
+	"C10": c10.Check,
 	"C20": c20.Check,
 }
 
